@@ -650,6 +650,10 @@ func (it *Interp) executable(fn *ssa.Function) bool {
 		}
 	}
 	if file := it.prog.Fset.Position(fn.Pos()).Filename; file != "" {
+		// generated protobuf getters
+		if strings.HasSuffix(file, ".pb.go") && strings.HasPrefix(fn.Name(), "Get") {
+			return true
+		}
 		for _, suf := range execThroughFiles {
 			if strings.HasSuffix(file, suf) {
 				return true
